@@ -506,8 +506,11 @@ func Document(r *core.Rand, o Opts) *Out {
 					first = " " + first // extra leading blank belongs to the summary
 				}
 			}
+			idOnNextLine := false
 			if o.IDs {
-				if first == "" {
+				if first == "" && r.Chance(1, 3) {
+					idOnNextLine = true // the summary (and its id token) starts on the continuation line
+				} else if first == "" {
 					first = idTok(ri, ei)
 				} else {
 					first = idTok(ri, ei) + " " + first
@@ -523,10 +526,14 @@ func Document(r *core.Rand, o Opts) *Out {
 				line += " " + first
 			}
 			emit(line, lay.EOL, LineInfo{Kind: LEntry, Rec: ri, Ent: ei})
-			if r.Chance(1, 4) {
+			if r.Chance(1, 4) || idOnNextLine {
 				out.feat("multi_line_summary")
 				for k := r.Range(1, 2); k > 0; k-- {
 					cont := phrase(r, &o, out, 1, 5)
+					if idOnNextLine {
+						cont = idTok(ri, ei) + " " + cont
+						idOnNextLine = false
+					}
 					if r.Chance(1, 5) {
 						cont = r.Pick(" ", "  ", "   ") + cont // vertically aligned text
 					}
